@@ -1,6 +1,7 @@
 package reactive
 
 import (
+	"sort"
 	"sync"
 
 	"github.com/iotaledger/hive.go/ds/shrinkingmap"
@@ -64,18 +65,24 @@ func (e *evictionState[Type]) evict(slot Type) []Event {
 		return nil
 	}
 
-	var startingSlot Type
-	if e.lastEvictedSlot == nil {
-		startingSlot = 0
-	} else {
-		startingSlot = *e.lastEvictedSlot + Type(1)
-	}
+	// the pending events are collected from the registered ones instead of stepping through the slots: the slot type
+	// also admits negative and fractional slots (which no unit step from 0 visits) and the largest value of the type
+	// (where a loop counter would wrap around)
+	var slotsToEvict []Type
+	e.evictionEvents.ForEachKey(func(pendingSlot Type) bool {
+		if pendingSlot <= slot {
+			slotsToEvict = append(slotsToEvict, pendingSlot)
+		}
 
-	var eventsToTrigger []Event
-	for i := startingSlot; i <= slot; i++ {
-		if slotEvictedEvent, exists := e.evictionEvents.Get(i); exists {
+		return true
+	})
+	sort.Slice(slotsToEvict, func(i, j int) bool { return slotsToEvict[i] < slotsToEvict[j] })
+
+	eventsToTrigger := make([]Event, 0, len(slotsToEvict))
+	for _, pendingSlot := range slotsToEvict {
+		if slotEvictedEvent, exists := e.evictionEvents.Get(pendingSlot); exists {
 			eventsToTrigger = append(eventsToTrigger, slotEvictedEvent)
-			e.evictionEvents.Delete(i)
+			e.evictionEvents.Delete(pendingSlot)
 		}
 	}
 
